@@ -19,6 +19,10 @@ DEFSETS = [
     "struct h { uint24 a; int48 b; uint48 c; uint128 d; uleb128 e; float16 f; double g; void v; };",
     "struct node { uint8 v; node *next; };",
     "struct i { uint8 m[2][3]; uint8 *pp[2]; inner_t z; };".replace("inner_t", "uint8"),
+    "typedef uint8 *p1;\ntypedef uint8 *p2;\ntypedef uint16 a1[2];\ntypedef uint16 a2[2];\nstruct j { p1 a; a2 b; };",
+    "struct k { struct { uint8 v; } *n; struct { uint8 w; } cells[2][3]; };",
+    "struct g1 { uint8 a; };\nstruct useg { g1 arr[2]; g1 *p; g1 one; };",
+    "enum Color { RED, GREEN };\ntypedef Color Colour;\ntypedef Colour Kleur;\nflag Perm { R, W };\ntypedef Perm Mode;",
 ]
 
 
@@ -73,6 +77,21 @@ def run(tier, seed):
             problems.append(f"not declared: {sorted(missing)}")
         if extra:
             problems.append(f"declared but not provided: {sorted(extra)}")
+        # every name a hint refers to exists: cstruct.<name> must be declared in the stub or be a built-in of cstruct,
+        # a bare name must be a class inlined in the enclosing class (or a module-level name of the stub header)
+        known_bare = {"CharArray", "WcharArray", "Pointer", "Array", "BinaryIO", "bytes", "memoryview", "bytearray", "None", "Literal", "TypeAlias", "overload"}
+        for top in cls.body:
+            if not isinstance(top, ast.ClassDef):
+                continue
+            inl = {n.name for n in ast.walk(top) if isinstance(n, ast.ClassDef)}
+            for node in ast.walk(top):
+                if isinstance(node, ast.AnnAssign):
+                    for ref in ast.walk(node.annotation):
+                        if isinstance(ref, ast.Attribute) and isinstance(ref.value, ast.Name) and ref.value.id == "cstruct":
+                            if ref.attr not in declared and ref.attr not in base.typedefs:
+                                problems.append(f"hint refers to undeclared cstruct.{ref.attr}")
+                        elif isinstance(ref, ast.Name) and ref.id not in known_bare and ref.id not in inl and ref.id != "cstruct":
+                            problems.append(f"hint refers to unknown name {ref.id}")
         # field hints name the field's actual type
         for name in user_types:
             t = cs.resolve(name)
